@@ -55,6 +55,14 @@ def run(ck: Checker):
     # "stops completely": __exit__ cancels what is pending and must be able to finish while stream feeders still sit in
     # the admission wait -- every message the gather loop consumes gives its slot back and issues its wake-up, whatever
     # the state of the future (the C06-4 obligations)
+    # "if any worker fails to initialise, raises that error": start() learns of the failure through join() of the worker's
+    # Thread / Process object, which must raise instead of hanging -- the future behind join() is resolved on every way the
+    # worker's run() can end (the C12-1 / C12-3 obligations; D21 was a Server.__enter__ that hung for this reason)
+    from . import c12
+
+    ck.rule('C11-9', 'a worker that fails to initialise makes join() raise, not hang: Thread.run resolves its future on every path (constructors of computed exception classes are user code), the result collector of a process resolves its future on every exit (the C12-1 / C12-3 obligations)', minimum=2)
+    c12.check_thread_run(ck, 'C11-9')
+    c12.check_collector(ck, 'C11-9')
     ck.rule('C11-8', 'leaving the with-block cannot strand a feeder in the admission wait: the gather loop removes the ledger entry and signals the admission condition exactly once per message whatever the state of the future (cancelled requests of an abandoned stream included) (the C06-4 obligations)', minimum=8)
     for name in server.SERVERS:
         server.check_slot_return(ck, 'C11-8', server.discover(ck.repo, name))
